@@ -2,6 +2,7 @@
 import z3
 from mirsym.harness import *
 
+WORLD = ('marginfi', 'typecrate', 'drift')
 ASSUMPTIONS = ['curve = any base rate in [0,10] (contract of C18.b/c); fee rates and fixed fees in [0,1]; dt in [1, 10 years] seconds',
                'A, L < 2^64 native units (as I80F48), L <= A (utilization <= 1; enforced after every withdraw/borrow, C17.c), share values in (0, 2^20)',
                'conservation allowance (bits): (L + total_liability_shares)/2^48 + base*dt/(2^48*S) + 2, S = seconds per year']
@@ -197,4 +198,5 @@ def t_accrue(world):
 
 
 def tasks(tier):
-    return [('state_changes', t_state_changes), ('lemma_chain', t_lemma_chain), ('accrue', t_accrue)]
+    from specs.flows import flow_task, FLOWS
+    return [('state_changes', t_state_changes), ('lemma_chain', t_lemma_chain), ('accrue', t_accrue)] + [(f'flow:{n}', flow_task(n, ('C06',))) for n in FLOWS]
